@@ -47,6 +47,9 @@ type icScenario struct {
 	Mode    string              `json:"mode"` // "replay" | "free"
 	Seed    int64               `json:"seed"`
 	Procs   int                 `json:"procs"`
+	// Remote: some files (a set closed under "imports") live in a remote repository and are imported by
+	// //host/org/repo/path spellings; the substituted reader serves them like any other file
+	Remote bool `json:"remote"`
 }
 
 type icWaiter struct {
@@ -62,6 +65,7 @@ type icRun struct {
 	byPath  map[string]string // cleaned path -> file id
 	content map[string]string
 	nimp    map[string]int // number of import statements actually written
+	remote  map[string]bool
 
 	mu      sync.Mutex
 	cond    *sync.Cond
@@ -72,6 +76,8 @@ type icRun struct {
 	free    bool
 	rng     *rand.Rand
 }
+
+const icRepo = "h.io/o/r"
 
 func (r *icRun) canon(filename string) string {
 	s := strings.ReplaceAll(filename, `\`, "/")
@@ -185,6 +191,32 @@ func (r *icRun) render() {
 		r.paths[f] = p
 		r.byPath[p] = f
 	}
+	r.remote = map[string]bool{}
+	if r.sc.Remote {
+		// pick a file and close the set under "imports": a remote file can only name files of its own repository
+		var close func(f string)
+		close = func(f string) {
+			if r.remote[f] {
+				return
+			}
+			r.remote[f] = true
+			for _, t := range r.sc.Imports[f] {
+				close(t)
+			}
+		}
+		for _, f := range r.sc.Files {
+			if f != r.sc.Root && rng.Intn(2) == 0 {
+				close(f)
+			}
+		}
+		if r.remote[r.sc.Root] {
+			r.remote = map[string]bool{} // the root is reached back: nothing can be remote
+		}
+		for f := range r.remote {
+			delete(r.byPath, r.paths[f])
+			r.byPath[icRepo+"/"+r.paths[f]] = f
+		}
+	}
 	for _, f := range r.sc.Files {
 		var b strings.Builder
 		kind := r.sc.Fail[f]
@@ -205,7 +237,16 @@ func (r *icRun) render() {
 			tp := r.paths[t]
 			noext := strings.TrimSuffix(tp, ".sysl")
 			var sp string
-			switch rng.Intn(6) {
+			choice := rng.Intn(6)
+			if r.remote[t] && !(r.remote[f] && choice < 3) {
+				// a file of the remote repository: the full remote spelling (from a remote file also rooted / relative)
+				choice = 6 + rng.Intn(2)
+			}
+			switch choice {
+			case 6:
+				sp = "//" + icRepo + "/" + noext
+			case 7:
+				sp = "//" + icRepo + "/" + tp
 			case 0: // rooted, extension implied
 				sp = "/" + noext
 			case 1: // rooted, explicit extension
